@@ -47,7 +47,8 @@ func Combinations(n, k int) [][]int {
 			out = append(out, cp(cur))
 			return
 		}
-		for v := from; v < n; v++ {
+		// v may not be so large that fewer than k-len(cur) elements remain
+		for v := from; v <= n-(k-len(cur)); v++ {
 			cur = append(cur, v)
 			rec(v + 1)
 			cur = cur[:len(cur)-1]
@@ -57,6 +58,46 @@ func Combinations(n, k int) [][]int {
 		rec(0)
 	}
 	return out
+}
+
+// FirstCombinations returns the first limit k-subsets of {0..n-1} in lexicographic order.
+func FirstCombinations(n, k, limit int) [][]int {
+	var out [][]int
+	cur := make([]int, 0, k)
+	var rec func(from int)
+	rec = func(from int) {
+		if len(out) >= limit {
+			return
+		}
+		if len(cur) == k {
+			out = append(out, cp(cur))
+			return
+		}
+		for v := from; v <= n-(k-len(cur)) && len(out) < limit; v++ {
+			cur = append(cur, v)
+			rec(v + 1)
+			cur = cur[:len(cur)-1]
+		}
+	}
+	if k >= 0 {
+		rec(0)
+	}
+	return out
+}
+
+// Binomial returns C(n,k) (exact while the result fits an int).
+func Binomial(n, k int) int {
+	if k < 0 || k > n {
+		return 0
+	}
+	if n-k < k {
+		k = n - k
+	}
+	r := 1
+	for i := 1; i <= k; i++ {
+		r = r * (n - k + i) / i
+	}
+	return r
 }
 
 // CombinationsColex returns the k-subsets of {0..n-1} in colexicographic order
@@ -90,6 +131,87 @@ func EachPermutation(n int, f func(p []int)) {
 		}
 	}
 	rec()
+}
+
+// FirstPermutations returns the first limit permutations of {0..n-1} in lexicographic order.
+func FirstPermutations(n, limit int) [][]int {
+	return RestrictedPermutations(n, func([]int) bool { return true }, limit)
+}
+
+// RestrictedPermutations returns, in lexicographic order, the permutations of
+// {0..n-1} all of whose non-empty prefixes are accepted by pred, by a
+// depth-first search that extends a prefix only when it is accepted (the same
+// set as FilterPrefixes(Permutations(n), pred), usable for large n when few
+// prefixes are accepted).  limit > 0 stops after that many objects.
+func RestrictedPermutations(n int, pred func([]int) bool, limit int) [][]int {
+	var out [][]int
+	used := make([]bool, n)
+	cur := make([]int, 0, n)
+	var rec func()
+	rec = func() {
+		if limit > 0 && len(out) >= limit {
+			return
+		}
+		if len(cur) == n {
+			out = append(out, cp(cur))
+			return
+		}
+		for v := 0; v < n; v++ {
+			if used[v] {
+				continue
+			}
+			cur = append(cur, v)
+			if pred(cur) {
+				used[v] = true
+				rec()
+				used[v] = false
+			}
+			cur = cur[:len(cur)-1]
+		}
+	}
+	rec()
+	return out
+}
+
+// LinearExtensions returns, in lexicographic order, the permutations of
+// {0..n-1} in which i stands before j for every pair (i,j) of rel: position by
+// position, an element may be placed once all the elements that have to stand
+// before it are placed.  The same set as FilterTopological(Permutations(n), rel).
+func LinearExtensions(n int, rel [][2]int) [][]int {
+	waiting := make([]int, n) // number of unplaced elements that must precede
+	after := make([][]int, n)
+	for _, e := range rel {
+		waiting[e[1]]++
+		after[e[0]] = append(after[e[0]], e[1])
+	}
+	var out [][]int
+	placed := make([]bool, n)
+	cur := make([]int, 0, n)
+	var rec func()
+	rec = func() {
+		if len(cur) == n {
+			out = append(out, cp(cur))
+			return
+		}
+		for v := 0; v < n; v++ {
+			if placed[v] || waiting[v] != 0 {
+				continue
+			}
+			placed[v] = true
+			for _, w := range after[v] {
+				waiting[w]--
+			}
+			cur = append(cur, v)
+			rec()
+			cur = cur[:len(cur)-1]
+			for _, w := range after[v] {
+				waiting[w]++
+			}
+			placed[v] = false
+		}
+	}
+	rec()
+	return out
 }
 
 // Permutations returns all permutations of {0..n-1} in lexicographic order.
@@ -248,6 +370,32 @@ func IntegerPartitions(n int) [][]int {
 			if p > rest {
 				continue
 			}
+			cur = append(cur, p)
+			rec(rest-p, p)
+			cur = cur[:len(cur)-1]
+		}
+	}
+	rec(n, n)
+	return out
+}
+
+// FirstIntegerPartitions returns the first limit partitions of n in reverse lexicographic order.
+func FirstIntegerPartitions(n, limit int) [][]int {
+	var out [][]int
+	cur := []int{}
+	var rec func(rest, max int)
+	rec = func(rest, max int) {
+		if len(out) >= limit {
+			return
+		}
+		if rest == 0 {
+			out = append(out, cp(cur))
+			return
+		}
+		if max > rest {
+			max = rest
+		}
+		for p := max; p >= 1 && len(out) < limit; p-- {
 			cur = append(cur, p)
 			rec(rest-p, p)
 			cur = cur[:len(cur)-1]
@@ -711,6 +859,67 @@ func SelfCheck() error {
 	// 2 x 3 grid poset (0<1<2, 3<4<5, 0<3, 1<4, 2<5): 5 linear extensions (standard Young tableaux of shape 3,3)
 	if l := FilterTopological(Permutations(6), [][2]int{{0, 1}, {1, 2}, {3, 4}, {4, 5}, {0, 3}, {1, 4}, {2, 5}}); len(l) != 5 {
 		return fmt.Errorf("linear extensions of the 2x3 grid: %d", len(l))
+	}
+	// the pruned searches used for large n agree with the filters on small n
+	for n := 0; n <= 6; n++ {
+		all := Permutations(n)
+		for salt := 0; salt < 8; salt++ {
+			pred := func(p []int) bool {
+				h := salt*977 + 3
+				for _, v := range p {
+					h = (h*41 + v + 1) % 1000003
+				}
+				return salt == 0 || h%4 != 0
+			}
+			if a, b := RestrictedPermutations(n, pred, 0), FilterPrefixes(all, pred); !same(a, b) {
+				return fmt.Errorf("RestrictedPermutations(%d) and FilterPrefixes disagree for salt %d: %d vs %d objects", n, salt, len(a), len(b))
+			}
+			var rel [][2]int
+			for i := 0; i < n; i++ {
+				for j := i + 1; j < n; j++ {
+					if (salt*31+i*7+j*13)%5 < salt%4 {
+						rel = append(rel, [2]int{i, j})
+					}
+				}
+			}
+			if a, b := LinearExtensions(n, rel), FilterTopological(all, rel); !same(a, b) {
+				return fmt.Errorf("LinearExtensions(%d,%v) and FilterTopological disagree: %d vs %d objects", n, rel, len(a), len(b))
+			}
+		}
+		if a := FirstPermutations(n, 7); !same(a, all[:min(7, len(all))]) {
+			return fmt.Errorf("FirstPermutations(%d,7) = %v", n, a)
+		}
+	}
+	// two disjoint chains of a and b elements have C(a+b,a) linear extensions; a total order has one
+	for _, ab := range [][2]int{{1, 70}, {2, 68}, {66, 2}, {3, 20}, {10, 4}} {
+		a, b := ab[0], ab[1]
+		var rel [][2]int
+		for i := 0; i+1 < a+b; i++ {
+			if i+1 != a {
+				rel = append(rel, [2]int{i, i + 1})
+			}
+		}
+		if l := LinearExtensions(a+b, rel); len(l) != Binomial(a+b, a) {
+			return fmt.Errorf("linear extensions of chains %d+%d: %d, want %d", a, b, len(l), Binomial(a+b, a))
+		}
+	}
+	if Binomial(130, 2) != 8385 || Binomial(1000, 998) != 499500 || Binomial(66, 3) != 45760 || Binomial(5, 6) != 0 || Binomial(0, 0) != 1 {
+		return fmt.Errorf("Binomial")
+	}
+	for _, nk := range [][2]int{{7, 3}, {9, 0}, {9, 9}, {6, 7}, {12, 5}} {
+		full := Combinations(nk[0], nk[1])
+		if a := FirstCombinations(nk[0], nk[1], 11); !same(a, full[:min(11, len(full))]) {
+			return fmt.Errorf("FirstCombinations(%d,%d,11) = %v", nk[0], nk[1], a)
+		}
+	}
+	if l := Combinations(1000, 999); len(l) != 1000 || len(Combinations(130, 128)) != 8385 {
+		return fmt.Errorf("Combinations(1000,999): %d objects", len(l))
+	}
+	for n := 0; n <= 12; n++ {
+		full := IntegerPartitions(n)
+		if a := FirstIntegerPartitions(n, 9); !same(a, full[:min(9, len(full))]) {
+			return fmt.Errorf("FirstIntegerPartitions(%d,9) = %v", n, a)
+		}
 	}
 	if fmt.Sprint(Inverse([]int{2, 0, 1})) != "[1 2 0]" || Inverse([]int{0, 0}) != nil {
 		return fmt.Errorf("Inverse")
